@@ -310,6 +310,7 @@ func (o *Originator) load(x *ssa.UnOp, c *octx) *Term {
 			if len(stores) == 1 {
 				return o.of(stores[0].Val, c)
 			}
+			return &Term{Op: "load", S: AP(x), V: x}
 		}
 		base := o.of(a.X, c)
 		fn := FieldName(a.X.Type(), a.Field)
